@@ -451,6 +451,19 @@ def run(ctx):
     res.min_evaluations = 1000 if not ctx.replay else 0
     res.min_nontrivial = 0 if ctx.replay else ctx.pick(40, 120)
     with core.Build() as b:
+        longrun = None
+        if ctx.thorough and not ctx.replay:
+            # Beside everything else (one core, about 4 min): the forwarded-query table fed with 2^32 + 2^16 queries in one
+            # history - what a server with -b has been through after months - under the same sanitizers.  Datagram counts of
+            # that order cannot be pushed through the simulated network; the table driver of C20 calls the tree's own
+            # fw_query.c directly.  A report is a C05 violation: iodined's memory safety must not depend on how long it has run.
+            import threading
+            from vflib import unitrun
+            drv = b.unit("fwq", ["fwq.c"], objs=[], libs=())
+            lres = core.Result()
+            th = threading.Thread(target=lambda: unitrun.run_sharded(lres, "C05", drv, 1, lambda i: ["long", (1 << 32) + (1 << 16), ctx.seed], jobs=1, timeout=3000))
+            th.start()
+            longrun = (th, lres)
         simrun.run_scenarios(res, b, scn, plist, jobs=ctx.jobs)
         if not ctx.replay:
             hrng = random.Random(ctx.seed * 31337 + 5)
@@ -460,6 +473,14 @@ def run(ctx):
         if not ctx.replay:
             # ordinary traffic too (the workloads of the behavioural checks): a death there is the same violation
             simrun.run_scenarios(res, b, _sess.scn_survive, _sess.survive_params(ctx, "C05", "server", ctx.pick(32, 2000), 600000), jobs=ctx.jobs)
+        if longrun is not None:
+            longrun[0].join()
+            lres = longrun[1]
+            res.violations += lres.violations
+            res.harness_errors += lres.harness_errors
+            res.inconclusive += lres.inconclusive
+            for kk, vv in lres.extra.items():
+                res.extra["fwq_" + kk] = vv
         # memcheck pass: the same scenarios, fewer of them, with non-sanitized programs under valgrind memcheck (uninitialised
         # values and the invalid accesses ASan's red zones cannot see); the first error ends the program
         if not ctx.replay or (ctx.replay.get("witness") or {}).get("params", {}).get("memcheck"):
